@@ -4,7 +4,7 @@ seed=${1:-0}; tier=${2:-quick}; shift; shift
 props="$@"
 [ -z "$props" ] && props=$(python3 -c "import json;print(' '.join(c['property_id'] for c in json.load(open('/verif/MANIFEST.json'))['checks']))")
 for p in $props; do
-  out=$(VERIF_SEED=$seed /verif/check $p --tier $tier 2>&1); rc=$?
+  out=$(VERIF_SEED=$seed "$(dirname "$0")/../check" $p --tier $tier 2>&1); rc=$?
   echo "rc=$rc $(echo "$out" | grep "^$p tier" | tail -1)"
   echo "$out" | grep "^VIOLATION\|^API-SUMMARY\|HARNESS\|BUILD-ERROR" | cut -c1-400 | head -8
 done
